@@ -5,7 +5,7 @@ import warnings
 
 import numpy as np
 
-from .. import cases, cmp, corpus, gen, sim, expect
+from .. import cases, cmp, corpus, gen, sim, expect, w4
 from ..harness import CaseResult
 from ..probe import read
 
@@ -33,20 +33,22 @@ REQUIRED_REACH = [
     "class:hides", "class:pair=CATxMR", "class:pair=MRxMR", "class:pair=ARRxCAT",
 ]
 BATCH = 50
-RULE = RULE + corpus.RULE_SUFFIX
-REQUIRED_REACH = list(REQUIRED_REACH) + ["class:corpus"]
+RULE = RULE + corpus.RULE_SUFFIX + w4.RULE_SUFFIX
+REQUIRED_REACH = list(REQUIRED_REACH) + ["class:corpus", "class:w4"]
 TECHNIQUE = TECHNIQUE + corpus.TECHNIQUE_SUFFIX
 
 
 def units(tier, seed):
     n = 800 if tier == "quick" else 50000
     # W1 synthetic surveys, then W3: the fixture corpus under the intrinsic relations
-    return [{"i": i, "seed": seed} for i in range(n)] + corpus.units(tier, seed)
+    return [{"i": i, "seed": seed} for i in range(n)] + corpus.units(tier, seed) + w4.units(tier, seed)
 
 
 def make_case(unit):
     if "corpus" in unit:
         return corpus.make_case(ID, unit)
+    if "w4" in unit:
+        return w4.make_case(ID, unit)
     i = unit["i"]
     g = gen.G("C03/%s/%s" % (unit["seed"], i))
     template = TEMPLATES[i % len(TEMPLATES)]
@@ -104,6 +106,8 @@ def _add_hides(g, facets, transforms):
 def check_case(case):
     if "fixture" in case:
         return corpus.check_case(ID, case)
+    if case.get("w4"):
+        return w4.check_case(ID, case)
     res = CaseResult()
     L = cases.realize(case)
     o = L.oracle
